@@ -7,8 +7,8 @@ AES_REPO = ["crypto/crypto_aes_aesni.c", "crypto/crypto_aesctr_aesni.c",
             "util/warnp.c", "util/insecure_memzero.c"]
 
 TARGETS = {
-    "h_aes": dict(repo_opt="-O0", harness=["h_aes.c"], engine=["vf.c", "ref/ref_aes.c"], shims=AES_SHIMS, repo=AES_REPO,
-                  libs=["-lcrypto"], defs=["-Wno-deprecated-declarations"]),
+    "h_aes": dict(repo_opt="-O0", harness=["h_aes.c"], engine=["vf.c", "alloc.c", "ref/ref_aes.c"], shims=AES_SHIMS, repo=AES_REPO,
+                  libs=["-lcrypto"], defs=["-Wno-deprecated-declarations"], wrap=["malloc", "calloc", "realloc", "free"]),
 }
 
 CHECKS = {
